@@ -56,6 +56,10 @@ pub struct Shared {
     pub wwaker: Option<Waker>,
     /// the client wrote more than `WRITE_BUDGET` bytes in one schedule: a write loop that does not end
     pub runaway: bool,
+    /// vectored writes: 0 = the transport does not advertise them; 1 = it does and takes the first
+    /// non-empty slice per call (what the default `poll_write_vectored` does — every such write ends
+    /// exactly on a slice boundary); 2 = it does and gathers across slices up to `wcap` bytes
+    pub wvec: u8,
 }
 
 /// no schedule makes the client write anywhere near this much (requests are a few hundred bytes);
@@ -63,6 +67,11 @@ pub struct Shared {
 const WRITE_BUDGET: usize = 8 << 20;
 
 /// the transport's write acceptance is part of the schedule: it is derived from the schedule's seed
+/// and so is its support for vectored writes
+pub fn wvec_of(seed: u64) -> u8 {
+    ((seed / 16) % 3) as u8
+}
+
 pub fn wcap_of(seed: u64) -> usize {
     match seed % 8 {
         0 => 1,
@@ -121,6 +130,18 @@ impl AsyncWrite for SimIo {
         }
         s.written.extend_from_slice(&b[..n]);
         Poll::Ready(Ok(n))
+    }
+    fn poll_write_vectored(self: Pin<&mut Self>, cx: &mut Context<'_>, bufs: &[io::IoSlice<'_>]) -> Poll<io::Result<usize>> {
+        let mode = self.0.lock().unwrap().wvec;
+        if mode == 2 {
+            let all: Vec<u8> = bufs.iter().flat_map(|b| b.iter().copied()).collect();
+            return self.poll_write(cx, &all);
+        }
+        let first: &[u8] = bufs.iter().find(|b| !b.is_empty()).map_or(&[][..], |b| &**b);
+        self.poll_write(cx, first)
+    }
+    fn is_write_vectored(&self) -> bool {
+        self.0.lock().unwrap().wvec != 0
     }
     fn poll_flush(self: Pin<&mut Self>, _: &mut Context<'_>) -> Poll<io::Result<()>> {
         Poll::Ready(Ok(()))
@@ -291,7 +312,7 @@ fn wake(sh: &Arc<Mutex<Shared>>) {
 
 impl World {
     pub fn new(password: Option<String>, seed: u64) -> World {
-        let sh = Arc::new(Mutex::new(Shared { wcap: wcap_of(seed), ..Shared::default() }));
+        let sh = Arc::new(Mutex::new(Shared { wcap: wcap_of(seed), wvec: wvec_of(seed), ..Shared::default() }));
         let io = SimIo(sh.clone());
         // all three entry points: `connect`, `connect_with_password`, `connect_with_password_opt`
         // (which one is part of the schedule: derived from its seed)
@@ -835,6 +856,8 @@ impl SimServer {
 const SUBS: &[&str] = &[
     "database", "update", "stored_playlist", "playlist", "player", "mixer", "output", "options", "partition", "sticker",
     "subscription", "message", "neighbor", "mount", "zzz_unknown", "Player",
+    // names a lenient lookup (case folding, aliases of the Rust variant names) would take for known ones
+    "queue", "PLAYLIST", "Stored_Playlist", "storedplaylist",
     // names the parser passes through and the client must carry unchanged: empty, blanks, a CR
     "", "player ", " mixer", "options\r",
 ];
@@ -1097,7 +1120,16 @@ pub fn gen_schedule(r: &mut Rng, g: &GenCfg, steps: usize, prop: &str, backpress
             do_act(&mut w, &mut sv, &mut actions, format!("d{}", hex(&v))).await;
         } else if r.chance(1, 3) && greeting.len() > 3 {
             let p = r.range(1, greeting.len() - 1);
+            // a slow start (a socket-activated server still loading its database): nothing in the
+            // handshake may depend on how long the greeting takes
+            let slow = prop == "C18" && r.chance(1, 3);
+            if slow {
+                do_act(&mut w, &mut sv, &mut actions, format!("t{}", r.pick(&[25_000usize, 31_000, 120_000]))).await;
+            }
             do_act(&mut w, &mut sv, &mut actions, format!("d{}", hex(&greeting[..p]))).await;
+            if slow {
+                do_act(&mut w, &mut sv, &mut actions, format!("t{}", r.pick(&[25_000usize, 31_000, 600_000]))).await;
+            }
             do_act(&mut w, &mut sv, &mut actions, format!("d{}", hex(&greeting[p..]))).await;
         } else {
             do_act(&mut w, &mut sv, &mut actions, format!("d{}", hex(&greeting))).await;
@@ -1350,6 +1382,9 @@ pub fn gen_schedule(r: &mut Rng, g: &GenCfg, steps: usize, prop: &str, backpress
                                 b"binary: 18446744073709551616\n",
                                 b"foo: bar\nbinary: 2\nABC",
                                 b"binary: -1\n",
+                                // well-formed headers announcing more than can ever arrive (or be allocated)
+                                b"binary: 9223372036854775808\n",
+                                b"size: 1\nbinary: 18446744073709551615\nAB",
                             ]);
                             do_act(&mut w, &mut sv, &mut actions, format!("d{}", hex(garbage))).await;
                         }
@@ -1440,6 +1475,10 @@ pub fn gen(cfg: &Cfg) -> Vec<String> {
         }
         if cfg.prop == "C08" && i < 4 {
             ops.push(gen_burst_for(&mut r, [70, 130, 10, 300][i], "C08"));
+        }
+        // more unread events than the largest plausible queue bound
+        if cfg.prop == "C08" && i == 4 {
+            ops.push(gen_burst_for(&mut r, 1100, "C08"));
         }
         if cfg.prop == "C01" && i == 0 {
             ops.push(gen_request_burst(&mut r, 140));
